@@ -117,6 +117,8 @@ def tok(v, bool_as_num=False):
         t = pd.Timestamp(v)
         if t is pd.NaT:
             return ["m"]
+        if t.tzinfo is not None:
+            return ["o", "aware:" + repr(t)]          # never equal to a naive timestamp
         from .cells import dt_ns
 
         return ["d", dt_ns(t)]
